@@ -53,6 +53,7 @@ PROPERTY_RULES: Dict[str, List[Scoped]] = {
         _r("ENUM-PLACEMENTS"),
         _r("COST-GUARD", S_THL), _r("CANDIDATE-GUARDS", S_THL), _r("ENUM-NO-TRUNCATION", ("compute.exhaustive:", "compute.reconciliation:")), _r("HASH-IDENTITY", S_COMPUTE + S_MODEL),
         _r("MODEL-TABLE"), _r("LABEL-SIBLINGS"), _r("CONSERVED-SIDE"),
+        _r("COMBINATOR-TOTAL", S_THL),
     ],
     "C02": [
         _r("SENTINEL", S_SPFS, S_SUBSEQ), _r("COSTKEYS", S_SPFS), _r("PRUNE", S_SPFS), _r("EVENT-SIG", S_SPFS),
@@ -105,6 +106,7 @@ PROPERTY_RULES: Dict[str, List[Scoped]] = {
         _r("EVENT-TABLE"), _r("ENUM-NO-TRUNCATION", S_COMPUTE), _r("HASH-IDENTITY", S_COMPUTE + S_MODEL), _r("COST-GUARD"), _r("CANDIDATE-GUARDS"),
         _r("TREE-ITER-EXPLICIT", S_COMPUTE + S_MODEL), _r("HASH-CANONICAL"), _r("UPDATE-ALL-CANDIDATES"),
         _r("MODEL-TABLE"), _r("LABEL-SIBLINGS"), _r("CONSERVED-SIDE"),
+        _r("COMBINATOR-TOTAL"),
     ],
     "C06": [
         _r("MODEL-TABLE"), _r("LABEL-SIBLINGS"), _r("EVENT-EXHAUSTIVE"), _r("EVENT-TABLE"), _r("CONSERVED-SIDE"),
@@ -143,6 +145,7 @@ PROPERTY_RULES: Dict[str, List[Scoped]] = {
         # a configuration and its mirror image are priced alike iff both are priced as the (orientation-free) model says
         _r("EVENT-SIG"), _r("MODEL-TABLE"), _r("CONSERVED-SIDE"), _r("ITERATOR-REUSE", S_COMPUTE), _r("COST-GUARD"), _r("CANDIDATE-GUARDS"),
         _r("INFO-KEY"), _r("COMBINE-ORIENT"), _r("GRAPH-KEYS"),
+        _r("COMBINATOR-TOTAL"),
     ],
     "C10": [
         _r("BASE-EXT-SHARE"), _r("EVENT-SIG"), _r("COSTKEYS"), _r("SIBLING-PAIRING"), _r("READONLY-DECODE"),
@@ -153,6 +156,7 @@ PROPERTY_RULES: Dict[str, List[Scoped]] = {
         _r("MASK-RANGE"), _r("ENUM-NO-TRUNCATION", S_COMPUTE),
         _r("MODEL-TABLE"), _r("LABEL-SIBLINGS"), _r("CONSERVED-SIDE"),
         _r("GRAPH-KEYS"),
+        _r("COMBINATOR-TOTAL"),
     ],
     "C11": [
         _r("DICT-KEYS"), _r("FIELDS-SERIALISED"), _r("TREE-WRITE-ARGS"), _r("ENUM-DISJOINT"), _r("MAPPING-KEYING"),
@@ -593,6 +597,7 @@ PROPERTY_INFO: Dict[str, Dict] = {
 # clauses added in the fourth round (rules derived from the mutation sweep and the fourth batch of seeded changes)
 _DECIDED_ROUND4 = {
     "C01": [
+        "every combinator prices all pairs alike: one unconditional Candidate, no branch answering an infinite candidate for some pairs (COMBINATOR-TOTAL)",
         "every test that dominates a candidate in the table-filling functions is a leaf test, an ancestor-order predicate, the -1 sentinel or an infinity test - no pruning argument of another kind (CANDIDATE-GUARDS)",
         "the unit costs reach the recurrences through arithmetic only: no test depends on a value derived from the cost vector (COST-GUARD, interprocedural taint)",
         "the enumerator and the decoder have no early stop or count limit, and no hash() value is used as an identity (ENUM-NO-TRUNCATION, HASH-IDENTITY)",
@@ -612,6 +617,7 @@ _DECIDED_ROUND4 = {
         "optional dictionary keys are read only where present (KEY-GUARD); the ordered flag matches the solver (OUTPUT-FLAG); family sets are not unpacked into characters (SET-ALGEBRA-ARGS)",
     ],
     "C05": [
+        "every combinator prices all pairs alike: one unconditional Candidate, no branch answering an infinite candidate for some pairs (COMBINATOR-TOTAL)",
         "every test that dominates a candidate in the table-filling functions is a leaf test, an ancestor-order predicate, the -1 sentinel or an infinity test - no pruning argument of another kind (CANDIDATE-GUARDS)",
         "no early stop / count limit in decoders and enumerators, no hash() identity, no cost-dependent pruning (ENUM-NO-TRUNCATION, HASH-IDENTITY, COST-GUARD); evaluator event table (EVENT-TABLE)",
     ],
@@ -623,10 +629,12 @@ _DECIDED_ROUND4 = {
         "subtrees are never identified by the name of their root (NAME-AS-KEY); copies are lossless (COPY-FAITHFUL); enumerators have no early stop (ENUM-NO-TRUNCATION); costs survive the round trip (COST-PASSTHROUGH)",
     ],
     "C09": [
+        "every combinator prices all pairs alike: one unconditional Candidate, no branch answering an infinite candidate for some pairs (COMBINATOR-TOTAL)",
         "every test that dominates a candidate in the table-filling functions is a leaf test, an ancestor-order predicate, the -1 sentinel or an infinity test - no pruning argument of another kind (CANDIDATE-GUARDS)",
         "no one-shot iterator is walked twice (child order would decide which decodings survive) and no cost-dependent test (ITERATOR-REUSE, COST-GUARD)",
     ],
     "C10": [
+        "every combinator prices all pairs alike: one unconditional Candidate, no branch answering an infinite candidate for some pairs (COMBINATOR-TOTAL)",
         "every test that dominates a candidate in the table-filling functions is a leaf test, an ancestor-order predicate, the -1 sentinel or an infinity test - no pruning argument of another kind (CANDIDATE-GUARDS)",
         "children decode from the content stored for their parent (DECODE-CONTENT-FLOW); evaluator event table (EVENT-TABLE); no cost-dependent pruning (COST-GUARD)",
     ],
